@@ -22,7 +22,8 @@ RULE = ("Rows of a seeded greedy covering array (pairwise in the quick tier, 3-w
         "iteration (1 for MAP / dry run); constant keys are bit-unchanged; callbacks are called once per executed "
         "iteration with the documented arity; output files exist iff configured; a resumed run equals the "
         "uninterrupted one; the depth of the global RNG stack (and, without resume, the identity of the current "
-        "generator) is as before the call.")
+        "generator) is as before the call. Call sequences: a second call in the same process behaves like a "
+        "stand-alone call and never writes into the output directory of an earlier call.")
 LEVEL_TEXT = "t-wise coverage of the option space on one small model; not exhaustive over the full product."
 LEVEL_NOTE = "comm=None only (no MPI in the sandbox); one small model; 2 global iterations."
 ASSUMPTIONS = ["option combinations excluded as undocumented/invalid: resume or export or plots without an output "
@@ -273,6 +274,92 @@ def check_resume_without_dir(rec):
     raise Violation("resume_without_directory_accepted", "")
 
 
+def _tree_digest(root):
+    """relative path -> bytes of every file below root (names only for png plots, whose bytes carry timestamps)"""
+    out = {}
+    if root is None or not os.path.isdir(root):
+        return out
+    for dp, _, fns in os.walk(root):
+        for fn in fns:
+            full = os.path.join(dp, fn)
+            rel = os.path.relpath(full, root)
+            out[rel] = None if fn.endswith(".png") else open(full, "rb").read()
+    return out
+
+
+def _run_row(ift, lh, sig, sp, row, odir, total=2):
+    R = ift.random
+    R.push_sseq_from_seed(row["rngseed"])
+    d0 = len(R._sseq)
+    try:
+        res = _call(ift, lh, sig, sp, row, odir, total, False, {})
+        d1 = len(R._sseq)
+    finally:
+        while len(R._sseq) > d0:
+            R.pop_sseq()
+        R.pop_sseq()
+    require(d1 == d0, "rng_stack_depth_changed", f"{d0} -> {d1} ({_short(row)})")
+    return _digest(res, row["retpos"])
+
+
+def check_sequence(rec):
+    """history: two driver calls in one process; the second must behave as if it were the first
+    (same results, same files) and must not touch the first call's output directory"""
+    ift, sp, sig, lh = _model()
+    first, second = (dict(repair(dict(r, resume=False))) for r in (rec["first"], rec["second"]))
+    tmp = tempfile.mkdtemp(prefix="c27s_")
+    try:
+        o_ref = os.path.join(tmp, "ref", "out") if second["odir"] else None
+        o1 = os.path.join(tmp, "a", "out") if first["odir"] else None
+        o2 = os.path.join(tmp, "b", "out") if second["odir"] else None
+        for d in ("ref", "a", "b"):
+            os.makedirs(os.path.join(tmp, d))
+        ref = _run_row(ift, lh, sig, sp, second, o_ref)
+        ref_files = _tree_digest(o_ref)
+        # run it once more after the reference so that "second call equals first call" is not vacuous
+        _run_row(ift, lh, sig, sp, first, o1)
+        snap1 = _tree_digest(o1)
+        got = _run_row(ift, lh, sig, sp, second, o2)
+        require(got == ref, "result_depends_on_previous_call", f"first: {_short(first)}; second: {_short(second)}")
+        require(_tree_digest(o1) == snap1, "previous_output_directory_modified",
+                f"first: {_short(first)}; second: {_short(second)}; "
+                f"changed: {sorted(k for k in set(snap1) | set(_tree_digest(o1)) if snap1.get(k) != _tree_digest(o1).get(k))[:6]}")
+        got_files = _tree_digest(o2)
+        require(sorted(got_files) == sorted(ref_files), "output_files_depend_on_previous_call",
+                f"{sorted(set(got_files) ^ set(ref_files))[:8]}")
+        # pickled samples/means/markers must be byte-identical to those of the stand-alone call
+        diff = [k for k in ref_files if k.startswith("pickle") or k == "last_finished_iteration"
+                if ref_files[k] != got_files[k] and "random_state" not in k]
+        require(not diff, "output_file_contents_depend_on_previous_call", str(diff[:6]))
+        if not second["odir"]:
+            require(not os.listdir(os.path.join(tmp, "b")) and not os.listdir(os.path.join(tmp, "ref")),
+                    "files_without_output_directory", "")
+    finally:
+        shutil.rmtree(tmp, ignore_errors=True)
+        import matplotlib.pyplot as plt
+        plt.close("all")
+    return dict(nontrivial=bool(first["odir"]) != bool(second["odir"]) or first["save"] != second["save"],
+                classes=[f"odir:{int(first['odir'])}->{int(second['odir'])}", f"save:{first['save']}->{second['save']}",
+                         f"dry:{int(first['dry'])}->{int(second['dry'])}"])
+
+
+def sequence_cases(tier, seed):
+    rows = cases(tier, seed)
+    n = 12 if tier == "quick" else 120
+    out, want = [], [(True, False), (True, True), (False, True), (True, False)]
+
+    def h(*a):
+        return int(hashlib.sha1(":".join(map(str, (seed, "seq") + a)).encode()).hexdigest()[:8], 16)
+    for i in range(n):
+        wa, wb = want[i % len(want)]
+        ra = [r for r in rows if r["odir"] == wa]
+        rb = [r for r in rows if r["odir"] == wb]
+        if not ra or not rb:
+            continue
+        out.append({"first": ra[h(i, "a") % len(ra)], "second": rb[h(i, "b") % len(rb)]})
+    return out
+
+
 SUBS = [
     Sub(name="covering_array", check=check, cases=cases, shards=16,
         rule="rows of the covering array; every row is a distinct configuration and non-trivial",
@@ -280,4 +367,10 @@ SUBS = [
     Sub(name="resume_without_directory", check=check_resume_without_dir, shards=1,
         cases=lambda tier, seed: [{"nsamp": 0}, {"nsamp": 2}, {"dry": True}],
         rule="documented ValueError; RNG stack untouched"),
+    Sub(name="call_sequences", check=check_sequence, cases=sequence_cases, shards=12,
+        rule="pairs of covering-array rows executed one after the other in the same process (with/without output "
+             "directory in every order); oracle: the second call returns the same results and writes the same files "
+             "as when executed alone, and leaves the first call's output directory untouched; non-trivial = the two "
+             "calls differ in output directory presence or save strategy",
+        budget_quick=150, budget_thorough=3000),
 ]
